@@ -32,6 +32,10 @@ def patches_for(prop):
 
 def run_check(prop, tier, repo, seed, extra=()):
     env = dict(os.environ, VERIF_REPO=repo, VERIF_SEED=str(seed))
+    if repo != REPO:
+        env["VERIF_FAILFAST"] = "1"     # a patched tree only has to be caught: stop at the first shard that reports a violation
+    else:
+        env.pop("VERIF_FAILFAST", None)
     t0 = time.time()
     p = subprocess.run([os.path.join(VERIF_DIR, "check"), prop, "--tier", tier, "--no-evidence", *extra],
                        env=env, capture_output=True, text=True)
